@@ -270,6 +270,10 @@ class Executor:
         self._fnkeys = None
         self._closures = None
         self.trace = False
+        self.auto_havoc = False
+        self.subsume_key = None    # optional fn(state) -> hashable: states with an already-seen key are dropped (coarse merging)
+        self.execute_real = []     # regexes of crate functions that are executed although auto_havoc is on
+        self.auto_frames = {}      # struct name -> set of field indices auto-havoc'd callees are assumed not to touch
         from . import models
         self.models = models.REGISTRY
 
@@ -892,6 +896,12 @@ class Executor:
             names = self.STD_STRUCT_FIELDS.get(name) or self.src.structs.get(name)
             if names is None:
                 raise Abort('unmodelled', 'unknown struct %s' % name)
+            want = [nm for nm, v in vals]
+            if any(w not in names for w in want):
+                for cand in self.src.structs_all.get(name, []):
+                    if all(w in cand for w in want):
+                        names = cand
+                        break
             d = {names.index(nm): v for nm, v in vals}
         else:
             d = {i: v for i, (nm, v) in enumerate(vals)}
@@ -1336,11 +1346,42 @@ class Executor:
                 if r is not None:
                     self.models_used.add(cs.norm)
                     return r
-        name = self.resolve_crate_fn(cs)
-        if name is not None:
+        name = self.resolve_crate_fn(cs) if not self.auto_havoc else self._resolve_quiet(cs)
+        if name is not None and (not self.auto_havoc or any(rx.search(cs.norm) for rx in self.execute_real)):
             self.push_frame(st, name, cs.args, d, ret_block)
             return [st]
+        if self.auto_havoc:
+            return self._auto_havoc_call(st, frame, cs, arg_ops)
         raise Abort('unmodelled', 'callee %s (norm %s) in %s' % (callee, cs.norm, frame.fn.name))
+
+    def _resolve_quiet(self, cs):
+        try:
+            return self.resolve_crate_fn(cs)
+        except Abort:
+            return None
+
+    def _auto_havoc_call(self, st, frame, cs, arg_ops):
+        """assume-guarantee abstraction of every callee that is neither modelled nor on the execute list: arbitrary result,
+        arbitrary new contents behind every `&mut` argument, recorded as an event"""
+        self.havoc_used.add('[auto] ' + cs.norm)
+        st.event('call', cs.norm, ())
+        for op, a in zip(arg_ops, cs.args):
+            if isinstance(a, Ref) and op[0] in ('copy', 'move') and not op[1].proj:
+                ty = frame.fn.locals.get(op[1].local, '')
+                if ty.startswith('&mut '):
+                    inner = ty[5:]
+                    tgt = self.load(st, a.addr, a.path)
+                    if isinstance(tgt, Agg) and tgt.lazy and tgt.kind == 'struct':
+                        keep = self.auto_frames.get(tgt.ty.split('<')[0], set())
+                        self.store(st, a.addr, a.path, Agg(tgt.kind, tgt.ty, {i: v for i, v in tgt.fields.items() if i in keep}, lazy=True, nm=None))
+                    else:
+                        self.store(st, a.addr, a.path, Lazy(inner))
+        ty = cs.dest_ty
+        if ty is None:
+            raise Abort('unmodelled', 'auto-havoc of %s: unknown return type' % cs.callee)
+        if cs.ret_block is None:
+            raise Abort('diverge', cs.callee)
+        return self.ret(st, cs, self.fresh(st, ty, 'ah'))
 
     def do_return(self, st):
         fr = st.frames.pop()
@@ -1482,8 +1523,15 @@ class Executor:
     def run(self, st, max_paths=100000):
         work = [st]
         ends = []
+        seen_keys = set()
         while work:
             s = work.pop()
+            if self.subsume_key is not None and s.frames and s.frames[-1].idx == 0:
+                k = self.subsume_key(s)
+                if k in seen_keys:
+                    self.stats['subsumed'] = self.stats.get('subsumed', 0) + 1
+                    continue
+                seen_keys.add(k)
             try:
                 succ = self.step(s)
             except Abort as a:
